@@ -354,6 +354,158 @@ Section Refine.
   Qed.
 End Refine.
 
+(* ---------------------------------------------------------------- limit vs no limit *)
+(* the parser with a nesting limit / a finite stack either stops early (error at the limit, or the
+   stack overflow) or computes exactly what the unlimited parser computes *)
+Definition lim_rel {A} (r r0 : R A) : Prop := r = RErr \/ r = RPanic \/ r = r0.
+Lemma lim_refl : forall A (m : R A), lim_rel m m.
+Proof. intros. right. right. reflexivity. Qed.
+Lemma lim_bind : forall A B (m m0 : R A) (f f0 : A -> R B),
+  lim_rel m m0 -> (forall a, lim_rel (f a) (f0 a)) -> lim_rel (rbind m f) (rbind m0 f0).
+Proof.
+  intros A B m m0 f f0 [H | [H | H]] Hf; subst; simpl; unfold lim_rel; auto.
+  destruct m0; simpl; auto. apply Hf.
+Qed.
+
+Section LimRel.
+  Variables is_space is_letter is_number : N -> bool.
+  Variable to_lower : N -> N.
+  Variable case_sensitive : bool.
+  Variable ftype : bytes -> N.
+  Variables maxd stack : option nat.
+  Variable data : runes.
+  Notation cur := (cur data).
+  Notation eof := (eof data).
+  Notation skip_sp := (skip_sp is_space data).
+  Notation simple_term := (simple_term is_space data).
+  Notation err_unexpected := (Legacy.err_unexpected is_space data).
+  Notation field_operand :=
+    (field_operand is_space is_letter is_number to_lower case_sensitive ftype data).
+  Notation gsub := (bsub is_space is_letter is_number to_lower case_sensitive ftype maxd stack data).
+  Notation gexpr := (bexpr is_space is_letter is_number to_lower case_sensitive ftype maxd stack data).
+  Notation gloop := (bloop is_space is_letter is_number to_lower case_sensitive ftype maxd stack data).
+  Notation bsub := (bsub is_space is_letter is_number to_lower case_sensitive ftype None None data).
+  Notation bexpr := (bexpr is_space is_letter is_number to_lower case_sensitive ftype None None data).
+  Notation bloop := (bloop is_space is_letter is_number to_lower case_sensitive ftype None None data).
+
+  Lemma bsub_Sg : forall f depth pos lv lvl, gsub (S f) depth pos lv lvl =
+        if over stack (S lvl) then RPanic else
+        if over maxd (S lvl) then RErr else
+        if eof pos then RErr else
+        do c <- cur pos;
+        if N.eqb c 40 then
+          do p1 <- skip_sp (S pos);
+          do st <- gexpr f (S depth) p1 lv (S lvl);
+          let '((e, lv2), p2) := st in
+          if eof p2 then RErr else
+          do c2 <- cur p2;
+          if negb (N.eqb c2 41) then err_unexpected p2
+          else do p3 <- skip_sp (S p2); ROk ((e, lv2), p3)
+        else
+          do st <- simple_term pos;
+          let '(name, p1) := st in
+          if eq_fold_ascii name kw_not_r then
+            do st2 <- gsub f depth p1 lv (S lvl);
+            let '((ch, lv2), p2) := st2 in
+            ROk ((NotN ch, lv2), p2)
+          else
+            do st2 <- field_operand name p1 lv;
+            let '((k, lv2), p2) := st2 in
+            do e <- and_tree (length lv) k;
+            ROk ((e, lv2), p2).
+  Proof. reflexivity. Qed.
+
+  Lemma bexpr_Sg : forall f depth pos lv lvl, gexpr (S f) depth pos lv lvl =
+        do st <- gsub f depth pos lv lvl;
+        let '((high, lv2), p) := st in
+        gloop f depth None high p lv2 lvl.
+  Proof. reflexivity. Qed.
+
+  Lemma bloop_Sg : forall f depth low high pos lv lvl, gloop (S f) depth low high pos lv lvl =
+        do st <- simple_term pos;
+        let '(op, p1) := st in
+        let lop := map to_lower op in
+        if runes_eqb lop kw_and_r then
+          do st2 <- gsub f depth p1 lv lvl;
+          let '((rgt, lv2), p2) := st2 in
+          gloop f depth low (AndN high rgt) p2 lv2 lvl
+        else if runes_eqb lop kw_or_r then
+          do st2 <- gsub f depth p1 lv lvl;
+          let '((rgt, lv2), p2) := st2 in
+          gloop f depth (Some (join_or low high)) rgt p2 lv2 lvl
+        else
+          match op with
+          | [] =>
+            do fin <- (if eof p1 then ROk true
+                       else do c <- cur p1; ROk (N.eqb c 41 && Nat.ltb 0 depth));
+            if fin then ROk ((join_or low high, lv), p1) else err_unexpected p1
+          | _ => RErr
+          end.
+  Proof. reflexivity. Qed.
+
+
+  Lemma lim_all : forall f,
+    (forall d pos lv lvl lvl0, lim_rel (gsub f d pos lv lvl) (bsub f d pos lv lvl0)) /\
+    (forall d pos lv lvl lvl0, lim_rel (gexpr f d pos lv lvl) (bexpr f d pos lv lvl0)) /\
+    (forall d low high pos lv lvl lvl0,
+       lim_rel (gloop f d low high pos lv lvl) (bloop f d low high pos lv lvl0)).
+  Proof.
+    induction f as [|f [IHs [IHe IHl]]].
+    { repeat split; intros; apply lim_refl. }
+    split; [| split].
+    - intros d pos lv lvl lvl0. rewrite bsub_Sg.
+      rewrite (bsub_S is_space is_letter is_number to_lower case_sensitive ftype data).
+      destruct (over stack (S lvl)); [right; left; reflexivity|].
+      destruct (over maxd (S lvl)); [left; reflexivity|].
+      destruct (eof pos); [apply lim_refl|].
+      apply lim_bind; [apply lim_refl | intros c].
+      destruct (N.eqb c 40).
+      { apply lim_bind; [apply lim_refl | intros p1].
+        apply lim_bind; [apply IHe | intros [[e lv2] p2]; apply lim_refl]. }
+      apply lim_bind; [apply lim_refl | intros [name p1]].
+      destruct (eq_fold_ascii name kw_not_r); [| apply lim_refl].
+      apply lim_bind; [apply IHs | intros [[ch lv2] p2]; apply lim_refl].
+    - intros d pos lv lvl lvl0. rewrite bexpr_Sg.
+      rewrite (bexpr_S is_space is_letter is_number to_lower case_sensitive ftype data).
+      apply lim_bind; [apply IHs | intros [[high lv2] p]; apply IHl].
+    - intros d low high pos lv lvl lvl0. rewrite bloop_Sg.
+      rewrite (bloop_S is_space is_letter is_number to_lower case_sensitive ftype data).
+      apply lim_bind; [apply lim_refl | intros [op p1]]. cbv zeta.
+      destruct (runes_eqb (map to_lower op) kw_and_r).
+      { apply lim_bind; [apply IHs | intros [[rgt lv2] p2]; apply IHl]. }
+      destruct (runes_eqb (map to_lower op) kw_or_r).
+      { apply lim_bind; [apply IHs | intros [[rgt lv2] p2]; apply IHl]. }
+      apply lim_refl.
+  Qed.
+End LimRel.
+
+Lemma legacy_limit_or_v0 :
+  forall (is_space is_letter is_number : N -> bool) (to_lower : N -> N) (case_sensitive : bool)
+         (ftype : bytes -> N) (maxd : option nat) (q : bytes),
+    legacy_parse is_space is_letter is_number to_lower case_sensitive ftype maxd None q = RErr \/
+    legacy_parse is_space is_letter is_number to_lower case_sensitive ftype maxd None q
+    = legacy_parse is_space is_letter is_number to_lower case_sensitive ftype None None q.
+Proof.
+  intros. unfold legacy_parse. destruct (runes_of q) as [data| | |]; cbn [rbind]; auto.
+  unfold build_ast.
+  pose proof (skip_sp_ok is_space data 0 (Nat.le_0_l _)) as Hsk.
+  destruct (skip_sp is_space data 0) as [p0| | |]; cbn [rbind]; auto.
+  simpl in Hsk. destruct Hsk as [Hp0 [Hs0 _]].
+  destruct (lim_all is_space is_letter is_number to_lower case_sensitive ftype maxd None data
+                    (pfuel data)) as [_ [He _]].
+  destruct (He 0 p0 [] 0 0) as [H | [H | H]]; rewrite H; cbn [rbind].
+  - left. reflexivity.
+  - exfalso.
+    destruct (parse_all is_space is_letter is_number to_lower case_sensitive ftype maxd None
+                        (stack_ok_none maxd) data (pfuel data)) as [_ [Ht _]].
+    assert (Hw : wp (bexpr is_space is_letter is_number to_lower case_sensitive ftype maxd None data
+                           (pfuel data) 0 p0 [] 0) (fun _ => True)).
+    { eapply wp_mono; [apply Ht; [lia | exact Hs0 | unfold pfuel; lia | apply lvl_inv_0] |].
+      intros; exact I. }
+    rewrite H in Hw. exact Hw.
+  - right. reflexivity.
+Qed.
+
 Lemma legacy_refines :
   forall (is_space is_letter is_number : N -> bool) (to_lower : N -> N) (case_sensitive : bool)
          (ftype : bytes -> N) (q : bytes) ts lv,
